@@ -1570,6 +1570,103 @@ func c11chunkDimWidth(c *Ctx, r *Result, rule string) {
 		}
 	}
 	if len(widthFor) != 2 {
+		// the key size may first be turned into a width variable: w := 4; if ChunkKeySize == 8 { w = 8 }; ... if w == 8 { Uint64 } else { Uint32 }
+		widthFor = map[bool]int64{}
+		readWidthIn := func(from, arm *ssa.BasicBlock) int64 {
+			w := int64(0)
+			for _, blk := range dec.Blocks {
+				if !edgeDominates(from, arm, blk) {
+					continue
+				}
+				for _, in := range blk.Instrs {
+					if call, ok := in.(*ssa.Call); ok {
+						n := c.calleeName(call)
+						if strings.HasSuffix(n, ".Uint64") {
+							w = 8
+						} else if strings.HasSuffix(n, ".Uint32") {
+							w = 4
+						}
+					}
+				}
+			}
+			return w
+		}
+		for _, b := range dec.Blocks {
+			ifi, ok := b.Instrs[len(b.Instrs)-1].(*ssa.If)
+			if !ok {
+				continue
+			}
+			cmp, ok := ifi.Cond.(*ssa.BinOp)
+			if !ok || cmp.Op != token.EQL {
+				continue
+			}
+			k, isK := constInt(cmp.Y)
+			if !isK || k != 8 {
+				continue
+			}
+			reads := false
+			for f := range fieldsReadBy(cmp.X) {
+				if strings.HasSuffix(f, ".ChunkKeySize") {
+					reads = true
+				}
+			}
+			if !reads {
+				continue
+			}
+			// phis of constants fed by this test
+			for _, pb := range dec.Blocks {
+				for _, in := range pb.Instrs {
+					phi, ok := in.(*ssa.Phi)
+					if !ok || len(phi.Edges) != 2 {
+						continue
+					}
+					var val8, valOther int64 = -1, -1
+					for i, e := range phi.Edges {
+						ce, isC := constInt(e)
+						if !isC {
+							val8, valOther = -1, -1
+							break
+						}
+						pred := pb.Preds[i]
+						if pred == b.Succs[0] || edgeDominates(b, b.Succs[0], pred) {
+							val8 = ce
+						} else {
+							valOther = ce
+						}
+					}
+					if val8 < 0 || valOther < 0 {
+						continue
+					}
+					// tests of the width variable
+					for _, tb := range dec.Blocks {
+						tif, ok := tb.Instrs[len(tb.Instrs)-1].(*ssa.If)
+						if !ok {
+							continue
+						}
+						tc, ok := tif.Cond.(*ssa.BinOp)
+						if !ok || tc.Op != token.EQL || stripConv(tc.X) != ssa.Value(phi) {
+							continue
+						}
+						k2, isK2 := constInt(tc.Y)
+						if !isK2 {
+							continue
+						}
+						wTrue, wFalse := readWidthIn(tb, tb.Succs[0]), readWidthIn(tb, tb.Succs[1])
+						pick := func(v int64) int64 {
+							if v == k2 {
+								return wTrue
+							}
+							return wFalse
+						}
+						if pick(val8) != 0 && pick(valOther) != 0 {
+							widthFor[true], widthFor[false] = pick(val8), pick(valOther)
+						}
+					}
+				}
+			}
+		}
+	}
+	if len(widthFor) != 2 {
 		r.Errorf(rule + ": the ChunkKeySize == 8 branch of parseLayoutV3 was not recognised")
 		return
 	}
